@@ -34,11 +34,11 @@ def rule_branch(ctx):
     p = ctx.p
     f = _drv_method(p, "message_from_client")
     gp = p.cls("indi.message.get_properties.GetProperties")
-    cases = [(None, ["V1", "V2", "V3"]), ("", ["V1", "V2", "V3"]), ("V2", ["V2"]), ("NOPE", []), ("V3", ["V3"])]
+    cases = [(None, ["V1", "V2", "V22", "V3"]), ("", ["V1", "V2", "V22", "V3"]), ("V2", ["V2"]), ("NOPE", []), ("V3", ["V3"]), ("V", []), ("v2", []), ("V22", ["V22"])]
     bad = False
     for name, expect in cases:
         def run(it: Interp):
-            drv, vecs = make_driver(p, [("Text", "V1", True), ("Number", "V2", True), ("Switch", "V3", False)])
+            drv, vecs = make_driver(p, [("Text", "V1", True), ("Number", "V2", True), ("Light", "V22", True), ("Switch", "V3", False)])
             msg = Obj(gp, {"device": Const("DEV"), "name": Const(name), "version": Const("1.7"), "__closed__": Const(True)}, label="getProperties")
             return it.run_function(Fn(f, drv), [msg], {})
 
